@@ -63,6 +63,9 @@ def run_spec(job):
     eng = _W['eng']
     tier = _W['tier']
     t0 = time.time()
+    if isinstance(opts.get('builder'), str):
+        from . import entry as EN
+        opts = dict(opts, builder=getattr(EN, opts['builder']), runner=getattr(EN, opts['runner']))
     res = {'spec': ST.label(spec), 'kind': spec['kind'], 'paths': collections.Counter(), 'obligations': collections.Counter(), 'violations': [], 'unknown': [],
            'witness': collections.Counter(), 'witness_mismatch': [], 'error': None, 'samples': [], 'ok_reached': 0}
     try:
@@ -89,7 +92,7 @@ def run_spec(job):
             res['paths'][p.kind] += 1
             if p.kind == 'oob':
                 continue
-            step = {'kind': 'execute', 'sender': sc.sym['req.sender'], 'funds': sc.funds, 'msg': req['msg']}
+            step = req.get('step') or {'kind': 'execute', 'sender': sc.sym['req.sender'], 'funds': sc.funds, 'msg': req['msg']}
             # ---- obligations
             for pid in prop_ids:
                 for ob in P.PROPS[pid](sc, req, p):
@@ -120,6 +123,34 @@ def run_spec(job):
                         except Exception as e:
                             v.update(reproduced=False, diffs=['replay failed: %r' % (e,)], scenario=None)
                         res['violations'].append(v)
+            # ---- composed step: the same migration once more from the post-state (idempotence)
+            if opts.get('extra') == 'idempotence' and p.kind == 'ok' and 'C14' in prop_ids:
+                from . import entry as EN
+                for p2 in EN.run_migrate_again(sc, req, p):
+                    res['paths']['second:' + p2.kind] += 1
+                    if p2.kind == 'oob':
+                        continue
+                    for ob in P.c14_idempotence(sc, req, p, p2):
+                        name = 'C14:' + ob.name
+                        r, m = dec.check(list(p2.pc) + env + ob.neg, name)
+                        res['obligations'][(name, r)] += 1
+                        if r == 'unknown':
+                            res['unknown'].append({'obligation': name, 'spec': res['spec'], 'path': p2.kind})
+                        if r == 'sat':
+                            sig = finding_signature('C14', ob, spec['kind'])
+                            if any(v['signature'] == sig for v in res['violations']):
+                                continue
+                            v = {'signature': sig, 'spec': res['spec'], 'path': p2.kind, 'detail': p2.detail}
+                            try:
+                                st2 = dict(step)
+                                scen, c = H.build_replay(sc, m, step, eng)
+                                scen['steps'].append(dict(scen['steps'][0]))
+                                nat = H.run_replay(scen)['steps']
+                                same_store = nat[0]['storage'] == nat[1]['storage'] and nat[1]['outcome'] == 'ok'
+                                v.update(scenario=scen, native=nat[1], predicted=None, reproduced=not same_store, diffs=[] if not same_store else ['native second migration is a no-op'])
+                            except Exception as e:
+                                v.update(reproduced=False, diffs=['replay failed: %r' % (e,)], scenario=None)
+                            res['violations'].append(v)
             # ---- witness replay (model validation + reachability)
             if pi in witness_idx:
                 r, m = dec.check(list(p.pc) + env + nice + H.no_tie_constraints(p.world), 'witness')
@@ -149,6 +180,15 @@ def run_spec(job):
                     res['witness']['validated'] += 1
                     if p.kind == 'ok':
                         res['ok_reached'] += 1
+        if opts.get('extra') == 'integrality' and spec.get('with_integrality'):
+            for ob in P.integrality_corollary():
+                r, m = dec.check(ob.neg, 'C13:' + ob.name)
+                res['obligations'][('C13:' + ob.name, r)] += 1
+                if r == 'unknown':
+                    res['unknown'].append({'obligation': ob.name, 'spec': 'pure arithmetic', 'path': '-'})
+                if r == 'sat':
+                    res['violations'].append({'signature': finding_signature('C13', ob, 'Instantiate'), 'spec': 'pure arithmetic', 'path': '-', 'reproduced': False,
+                                              'diffs': ['arithmetic corollary refuted: %s' % m], 'scenario': None})
         res['decider'] = {'queries': dec.n, 'solver_s': dec.t, 'stats': dec.stats}
     except Exception as e:
         res['error'] = '%s: %s\n%s' % (type(e).__name__, e, traceback.format_exc()[-1500:])
